@@ -45,7 +45,11 @@ ConsumedOk ==
 
 Verdict(kind, extra) ==
   PrintT(ToJson([tv |-> kind, r |-> rid - 1, c |-> cid - 1, l |-> l, pc |-> pc, x |-> extra,
-                 lost |-> lost, consumed |-> IF kind = "ok" THEN ConsumedOk ELSE TRUE]))
+                 lost |-> lost, consumed |-> IF kind = "ok" THEN ConsumedOk ELSE TRUE,
+                 \* Error symbols still on the stack (shifted, not yet reduced) when the run ended
+                 onstack |-> {stack[k].sym.i : k \in {q \in DOMAIN stack : stack[q].sym.k = "x"}}
+                             \cup (IF pc = "fail"      \* the failing recovery popped everything: look at the stack it started from
+                                   THEN {save[k].sym.i : k \in {q \in DOMAIN save : save[q].sym.k = "x"}} ELSE {})]))
 
 TraceStep ==
   /\ conf = "run" /\ pc \notin Final
